@@ -28,7 +28,7 @@ func dkgCheck(c *vlib.Check) {
 		bound   int
 	}
 	var js []jobc
-	shapes := []string{"same", "add", "remove", "thr+", "thr-"}
+	shapes := []string{"same", "add", "remove", "remove-first", "thr+", "thr-"}
 	if c.Quick() {
 		for _, sh := range shapes {
 			js = append(js, jobc{"c07-dkg", crypto.DefaultSchemeID, 4, 3, sh, nil, nil, 0})
